@@ -1,18 +1,30 @@
 """C02 – readings of closed candles are final: no look-ahead, no repainting."""
+from ..oracles import analysis as oa
 from ..oracles import common as cm
+from ..oracles import facade as fa
 from ..oracles import framework as fw
 
 ID = "C02"
 LEAN_MODULE = "HexProps.C02"
-SCOPE = []
-ORACLE_RULE = "C02: see hx/oracles/framework.py (c02_case): random indicator spec (26 kinds + Amorph wrappers) x stream style x timeframe/fill x schedule on the real code"
+SCOPE = [("ind:ALL", 300, 40), ("amorph:ALL", 150, 40), ("analysis:ALL", 100, 24), ("manager.collapse", 100, 50),
+         ("hexital", 80, 40), ("hexital.ha", 60, 40)]
+ORACLE_RULE = "C02: see hx/oracles/framework.py (c02_case): random indicator spec (26 kinds + Amorph wrappers) x stream style x timeframe/fill x schedule on the real code; Hexital level (hx/oracles/facade.py: case_c02_hexital): 1-4 members on their own timeframes x Hexital timeframe / fill / Heikin-Ashi x schedule, every manager of Hexital.get_candles() snapshotted after every append"
 ASSUMPTIONS = ["TZ=UTC for this check"]
 PARTIAL = 'proved for all 27 shipped indicator classes (C02_trees over CoveredTreeX: closed candles of an earlier snapshot are a prefix of every later snapshot, any timeframe / fill; batch_truncation_trees) with candle-attribute inputs; indicator-valued inputs and the parameter corners of C01_FULL: C02_FULL, correspondence + search only'
 
 
 def oracle(ctx):
     n = (800 if ctx["tier"] == "quick" else 3000) * ctx["boost"]
-    return cm.run_cases(fw.c02_case, ctx["seed"], ID, n, {"size": 40 if ctx["tier"] == "quick" else 3 * 40})
+    sz = 40 if ctx["tier"] == "quick" else 3 * 40
+    return cm.merge_results(cm.run_cases(fw.c02_case, ctx["seed"], ID, n, {"size": sz}),
+                            cm.run_cases(fa.case_c02_hexital, ctx["seed"], ID + "hx", n // 2, {"size": sz}),
+                            # pattern / movement wrappers on candles with exact ties and threshold-sitting bodies: batch column = live column
+                            cm.run_cases(oa.case_c16_wrapped, ctx["seed"], ID + "w", n, {"size": 40, "prop": ID}))
 
 
-replay = fw.c02_replay
+def replay(w):
+    if w.get("scenario", {}).get("check") == "c02.hexital":
+        return fa.replay_c02_hexital(w)
+    if w.get("scenario", {}).get("mode") in ("amorph", "hexital"):
+        return oa.replay(w)
+    return fw.c02_replay(w)
